@@ -21,8 +21,8 @@
    (the server's qid counter; StartQuery's own duplicate check looks at the running table only).
    The pre-fix behaviour is documented at the end by C17_prefix_*_refuted (model [step_prefix]). *)
 From Coq Require Import List Sorted.
-From SigM Require Import Base QueryLife EvalIdx MetricsLife.
-From SigP Require Import BaseProofs QueryLifeProofs EvalIdxProofs MetricsLifeProofs.
+From SigM Require Import Base QueryLife QueryAdmit EvalIdx MetricsLife.
+From SigP Require Import BaseProofs QueryLifeProofs QueryAdmitProofs EvalIdxProofs MetricsLifeProofs.
 From Coq Require String.
 From SigM Require LockTrace LockOrder.
 From SigG Require GenLocks.
@@ -59,6 +59,81 @@ Theorem C17_fifo_admission : forall mx ops, let s := run mx init ops in
   StronglySorted lt (rev (admitted s) ++ map e_ser (waiting s)).
 Proof. exact fifo_admission. Qed.
 Print Assumptions C17_fifo_admission.
+
+(* ---------- what the admission check counts (model SigM.QueryAdmit) ----------
+   canRunQuery compares GetActiveQueryCount() with MAX_RUNNING_QUERIES.  [step_cnt cnt] is the
+   life-cycle step whose puller compares [cnt (running s)] with the limit, for ANY function [cnt]
+   of the running table; the code is the instance [count_entries] = the table size: an entry
+   counts from its admission until DeleteQuery removes it, whether it is forced, cancelled, timed
+   out or finished.  The harness reads the getter after every step and compares it with
+   [active_count] of the model. *)
+Theorem C17_code_counts_every_table_entry : forall mx s o, step_cnt count_entries mx s o = step mx s o.
+Proof. exact step_cnt_entries. Qed.
+Print Assumptions C17_code_counts_every_table_entry.
+
+(* every admission count that misses no entry of the table keeps, for all op sequences and every
+   limit: the admission limit, the queue limit, one entry per qid and admission in arrival order *)
+Theorem C17_admission_count_over_whole_table_keeps_limits : forall cnt mx ops,
+  (forall l, length l <= cnt l) ->
+  let s := run_cnt cnt mx init ops in
+  nonforced (running s) <= mx /\
+  length (waiting s) <= MAX_WAITING /\
+  NoDup (map e_qid (running s)) /\
+  StronglySorted lt (rev (admitted s) ++ map e_ser (waiting s)).
+Proof. exact safe_count_keeps_limits. Qed.
+Print Assumptions C17_admission_count_over_whole_table_keeps_limits.
+
+(* in every reachable state the getter is the table size, so the cancelled-but-undeleted entries
+   are in it *)
+Theorem C17_active_count_is_table_size : forall mx ops, let s := run mx init ops in
+  active_count s = length (running s) /\ count_uncancelled (running s) <= active_count s.
+Proof. exact active_count_is_table_size. Qed.
+Print Assumptions C17_active_count_is_table_size.
+
+(* a table at the limit admits nobody, whatever the flags of its entries (any state) *)
+Theorem C17_full_table_admits_nothing : forall mx s, mx <= length (running s) ->
+  step mx s Pull = (s, ONone) \/ step mx s Pull = (s, OBlocked).
+Proof. exact full_table_admits_nothing. Qed.
+Print Assumptions C17_full_table_admits_nothing.
+
+(* waiting queries are admitted in order as slots free up: after any op sequence, a free slot and
+   a non-empty queue make the next puller iteration move the OLDEST waiting query into the table
+   (READY, RUNNING in its channel), the rest of the queue is unchanged, the table grows by <= 1 *)
+Theorem C17_free_slot_admits_oldest_waiting : forall mx ops e wq, let s := run mx init ops in
+  length (running s) < mx -> waiting s = e :: wq ->
+  let s' := fst (step mx s Pull) in
+  waiting s' = wq /\ admitted s' = e_ser e :: admitted s /\
+  length (running s') <= S (length (running s)) /\
+  exists e', In e' (running s') /\ e_ser e' = e_ser e /\ e_qid e' = e_qid e /\
+             e_cancelled e' = false /\ e_chan e' = [READY; RUNNING].
+Proof. exact free_slot_admits_head. Qed.
+Print Assumptions C17_free_slot_admits_oldest_waiting.
+
+(* REFUTED for the count that leaves out entries whose isCancelled flag is set: limit 2, three
+   queued starts, two puller iterations (table full, one waiting), CancelQuery of a running query
+   whose handler has not reached DeleteQuery, one more iteration: 3 entries in the table.  The same
+   ops under the code's count: 2 entries, one query still waiting. *)
+Theorem C17_admission_count_without_cancelled_refuted :
+  exists ops, nonforced (running (run_cnt count_uncancelled 2 init ops)) = 3 /\
+              nonforced (running (run 2 init ops)) = 2 /\
+              length (waiting (run 2 init ops)) = 1.
+Proof. exact uncancelled_count_refuted. Qed.
+Print Assumptions C17_admission_count_without_cancelled_refuted.
+
+(* the same with the timeout instead of a cancel (limit 1) *)
+Theorem C17_admission_count_without_timed_out_refuted :
+  exists ops, nonforced (running (run_cnt count_uncancelled 1 init ops)) = 2 /\
+              nonforced (running (run 1 init ops)) = 1.
+Proof. exact uncancelled_count_timeout_refuted. Qed.
+Print Assumptions C17_admission_count_without_timed_out_refuted.
+
+(* every limit 1..6 and every k <= limit: with k cancelled-but-undeleted queries the table holds
+   limit + k entries under that count, exactly limit under the code's count (k keep waiting);
+   and that count is not one that misses no entry (hypothesis of the theorem above) *)
+Theorem C17_admission_count_without_cancelled_overshoots_by_k :
+  overshoot_grid = true /\ ~ (forall l, length l <= count_uncancelled l).
+Proof. exact (conj uncancelled_count_overshoots_by_every_cancelled_query uncancelled_count_misses_entries). Qed.
+Print Assumptions C17_admission_count_without_cancelled_overshoots_by_k.
 
 (* ---------- exactly one terminal state ---------- *)
 Theorem C17_serials_unique : forall mx ops, NoDup (map e_ser (insts (run mx init ops))).
